@@ -372,7 +372,7 @@ func roleName(n string) string {
 
 // targetDiff describes the first difference between pre and post that is not allowed ("" = fine).
 func targetDiff(pre, post sim.Obj, allowedL, allowedA map[string]bool, statusAllowed bool, ourFinalizer string) string {
-	a, b := sim.DeepCopy(pre), sim.DeepCopy(post)
+	a, b := jsonNormalize(pre), jsonNormalize(post)
 	ma, mb := a["metadata"].(map[string]interface{}), b["metadata"].(map[string]interface{})
 	for _, f := range []string{"resourceVersion", "generation"} {
 		delete(ma, f)
@@ -529,4 +529,18 @@ func runC16FinalizedHeld(t *testing.T, id, kind string, withAtt bool) {
 		}
 	}
 	rep.Case("C16", id, held && hookCalls > 0, id, map[string]interface{}{"kind": kind, "attachment": withAtt, "finalizerWasAdded": hadOurs, "heldByForeignFinalizer": held, "hookCalls": hookCalls, "writes": writes})
+}
+
+
+// jsonNormalize round-trips an object through JSON (typed nils become null, numbers one type).
+func jsonNormalize(o sim.Obj) sim.Obj {
+	b, err := json.Marshal(o)
+	if err != nil {
+		return sim.DeepCopy(o)
+	}
+	var out map[string]interface{}
+	if json.Unmarshal(b, &out) != nil {
+		return sim.DeepCopy(o)
+	}
+	return out
 }
